@@ -167,3 +167,22 @@ Example txhdr_proto_ok_example :
                     h_nentries := 70000; h_eh := repeat 2 32; h_bltxid := 8;
                     h_blroot := repeat 3 32 |} = true.
 Proof. vm_compute. reflexivity. Qed.
+
+(* proof terms: every list of 32-byte digests survives DigestsToProto / DigestsFromProto; whatever
+   arrives, the result has as many terms as the message and each is 32 bytes long *)
+Lemma digests_proto_roundtrip l :
+  forallb digest_ok l = true -> digests_from_proto (digests_to_proto l) = l.
+Proof.
+  unfold digests_from_proto, digests_to_proto.
+  induction l as [|d l IH]; cbn [map forallb]; intros H; [reflexivity|].
+  apply andb_prop in H. destruct H as [Hd Hl].
+  rewrite (digest_from_proto_id _ Hd), (IH Hl). reflexivity.
+Qed.
+
+Lemma digests_from_proto_shape l :
+  length (digests_from_proto l) = length l /\ forallb digest_ok (digests_from_proto l) = true.
+Proof.
+  unfold digests_from_proto. split; [apply map_length|].
+  induction l as [|d l IH]; cbn [map forallb]; [reflexivity|].
+  rewrite IH, Bool.andb_true_r. unfold digest_ok. rewrite digest_from_proto_len. apply N.eqb_refl.
+Qed.
